@@ -95,13 +95,16 @@ FIELDS[40] = ("(u8, u16, u8)", 4, 2, "tuple")
 # zero-length arrays of wide element types: no bytes, but the element's alignment (a `marker` field is not alignment-free)
 FIELDS[41] = ("[u64; 0]", 0, 8, "any")
 FIELDS[42] = ("[u16; 0]", 0, 2, "any")
+# raw pointers: as wide and as aligned as usize whatever the pointee is (an Align1 pointee does not make the pointer Align1)
+FIELDS[43] = ("*const u8", 8, 8, "any")
+FIELDS[44] = ("*mut [u8; 2]", 8, 8, "any")
 TUPLE_FIELDS = [18, 19, 33, 34, 35, 36, 37, 38, 39, 40]
 T_CODE = 99
 T_U8_CODE = 97                    # the tuple (T, u8)
 U8_T_CODE = 98                    # the tuple (u8, T)
 PARAM_CODES = (T_U8_CODE, U8_T_CODE, T_CODE)      # field codes that mention the type parameter (never instantiations)
 ALIGN1_FIELDS = [0, 1, 2, 3, 4, 5, 6, 7, 8, 9, 15, 16, 17, 20, 21, 23, 24, 28, 18, 19, 38]
-WIDE_FIELDS = [10, 11, 12, 13, 14, 33, 34, 35, 36, 37, 39, 40, 41, 42]
+WIDE_FIELDS = [10, 11, 12, 13, 14, 33, 34, 35, 36, 37, 39, 40, 41, 42, 43, 44]
 
 #   code: (rust type, may be zero sized)
 UFIELDS = {
@@ -135,7 +138,7 @@ RULE = ("declarations drawn from the grammar: macro {derive(Align1), zero_copy, 
         "packed(1|2|4), align(1|2|4|8) and combinations of one base with up to two modifiers, in one or two #[repr] "
         "attributes, any order} x 0-4 fields from {u8, bool, (), i8, [u8;N], PackedValue<u64|u16>, Pubkey, a u8 enum, "
         "NonZeroU8, [bool;2], (u8, u8), (u8,), (u8, bool, u8) | u16, u32, u64, u128, [u16;2], (u16,), (u16, u8), (u8, u16), (u64, u8), "
-        "(u8, u64), (u32, u8, u8), (u8, u16, u8), [u64;0], [u16;0]}, generic declarations also use the parameter inside a tuple field, (T, u8) / (u8, T); "
+        "(u8, u64), (u32, u8, u8), (u8, u16, u8), [u64;0], [u16;0], *const u8, *mut [u8;2]}, generic declarations also use the parameter inside a tuple field, (T, u8) / (u8, T); "
         "a systematic slice of derive(Align1) x {no repr, C, transparent, C packed} x {struct, tuple struct} x every tuple type "
         "alone / first / last, of (T, u8) / (u8, T) with T = u8 | u16 | u64, and of every zero-copy flavour on each tuple type; "
         "unsized structs additionally draw 1-3 unsized fields from "
